@@ -18,7 +18,7 @@ case $V in
   *) echo "unknown variant $V" >&2; exit 2;;
 esac
 DEFS='-std=gnu99 -g -fno-pic -fno-pie -Dmain=lbzip2_main -D_XOPEN_SOURCE=700 -D_FILE_OFFSET_BITS=64 -DPACKAGE_NAME=\"lbzip2\" -DPACKAGE_VERSION=\"devel\" -DKJN_LBZIP2_VERIF'
-H=$( (cat "$REPO"/src/*.c "$REPO"/src/*.h "$ROOT/sim/redirect.syms"; echo "$V $LF $DEFS") | sha1sum | cut -c1-16)
+H=$( (cat "$REPO"/src/*.c "$REPO"/src/*.h "$ROOT/sim/redirect.syms" "$ROOT"/sim/tls_?.c; echo "$V $LF $DEFS") | sha1sum | cut -c1-16)
 exec 9>"$B/.lock"
 flock 9
 # harness objects (no-op when up to date)
@@ -33,6 +33,19 @@ if [ ! -f "$L/.done" ]; then
     '"$CC @$L.tmp/flags.rsp"' -c $f -o '"$L.tmp"'/$b.o || exit 255
     objcopy --rename-section .data=lbz_data --rename-section .bss=lbz_bss '"$REDEF"' '"$L.tmp"'/$b.o || exit 255
   ' >&2
+  # Guard: every external symbol the lbzip2 objects reference must be modelled by the simulator (simw_*), a hook (verif_*), compiler
+  # or sanitizer support, or a pure libc function.  Anything else (a system call the stub does not know) would run against the real
+  # kernel outside the simulation; refuse to build instead of judging such a tree.
+  ALLOWED='^(simw_.*|verif_.*|_GLOBAL_OFFSET_TABLE_|__tls_get_addr|__errno_location|__stack_chk_fail|__(asan|ubsan|tsan|msan|sanitizer)_.*|__[a-z0-9_]*_chk|std(err|out|in)|(mem|str|wcs|wmem)[a-z0-9_]*|(is|to)(alnum|alpha|ascii|blank|cntrl|digit|graph|lower|print|punct|space|upper|xdigit)|__ctype_[a-z_]*|sig(addset|delset|emptyset|fillset|ismember)|v?sn?printf|v?sscanf|qsort|bsearch|l?l?abs|l?l?div|ato[ifl]+|ffsl?l?|__(u?div|u?mod|popcount|clz|ctz|mul|ashl|ashr|lshr|bswap|ffs|parity|cmp|ucmp|neg)[a-z0-9]*|(floor|ceil|sqrt|log|log2|exp|pow|fabs|round)[fl]?)$'
+  UNKNOWN=$(comm -23 <(nm -u "$L.tmp"/*.o | awk 'NF==2{print $2}' | sort -u) <(nm --defined-only "$L.tmp"/*.o | awk 'NF==3{print $3}' | sort -u) | grep -Ev "$ALLOWED" | tr '\n' ' ')
+  if [ -n "$UNKNOWN" ]; then
+    echo "lbzsim: the lbzip2 sources reference external symbols that the simulator does not model: $UNKNOWN" >&2
+    echo "lbzsim: refusing to build (sim/redirect.syms + sim/sim.cc must learn them first)" >&2
+    rm -rf "$L.tmp"; exit 4
+  fi
+  # TLS range markers around the lbzip2 objects (glob order at link time: 00_* first, zz_* last)
+  $CC @$L.tmp/flags.rsp -c "$ROOT/sim/tls_a.c" -o "$L.tmp/00_tls_a.o" >&2
+  $CC @$L.tmp/flags.rsp -c "$ROOT/sim/tls_z.c" -o "$L.tmp/zz_tls_z.o" >&2
   touch "$L.tmp/.done"
   rm -rf "$L"; mv "$L.tmp" "$L"
   # keep the cache small: drop all but the 3 newest object sets of this variant
